@@ -16,7 +16,8 @@ from vf.run import Job, Result
 
 ID = 'C13'
 RULE = ('Random expression trees (depth <= 4, unary signs, parentheses, random spacing) parsed as NumberExpr, free-standing or attached inside a '
-        'generated ledger (posting / balance / price / meta numbers); then a chain of 1-5 applications of + - * / in plain, reflected and in-place form '
+        'generated ledger (posting / balance / price / meta numbers, cost components, custom values); in-place operators are applied to the object or, half of the time, as the '
+        'statement `holder.attr op= x` / `wrapper[i] op= x` (read, operate, store back) through whatever holds the expression; the expression itself is one of the operands; then a chain of 1-5 applications of + - * / in plain, reflected and in-place form '
         'and of unary + / -, with operands drawn from int, Decimal, a free-standing expression or an expression attached in a document. Oracles: '
         '(1) value == an independent recursive-descent evaluation of the printed text (usual precedence, left associativity, unary binding tighter '
         'than *), same decimal context; (2) for r = a op b: r.value == a0 op b0 from the operand values read before the call, the evaluator on print(r) '
@@ -25,7 +26,7 @@ RULE = ('Random expression trees (depth <= 4, unary signs, parentheses, random s
         'right operand\'s top-level operator binds weaker than the applied one, or an operand is attached in a document, or the chain has length >= 2.')
 ASSUMPTIONS = ['// is not in the property', 'whether an in-place operator consumes a free right operand is not asserted', 'cases whose evaluation divides by zero are discarded']
 SHRINK_LISTS = ('chain', 'dirs')
-REQUIRED_CLASSES = ('form:plain', 'form:reflected', 'form:inplace', 'form:unary', 'operand:int', 'operand:dec', 'operand:expr', 'operand:attached', 'base:attached',
+REQUIRED_CLASSES = ('inplace-statement', 'operand:self', 'form:plain', 'form:reflected', 'form:inplace', 'form:unary', 'operand:int', 'operand:dec', 'operand:expr', 'operand:attached', 'base:attached',
                     'base:free', 'needs-parens')
 
 TOKEN_RE = re.compile(r'\s*(?:(\d{1,3}(?:,\d{3})+(?:\.\d*)?|\d+(?:\.\d*)?)|(.))', re.S)
@@ -161,6 +162,10 @@ def run_case(case: dict) -> Result:
                     operand = decimal.Decimal(o['v'])
                 elif vt == 'expr':
                     operand = common.parser().parse(o['v'], models.NumberExpr)
+                elif vt == 'self':
+                    if form == 'reflected':
+                        continue
+                    operand = cur      # x + x, x += x: the expression as its own operand
                 elif vt == 'attached':
                     if not exprs:
                         continue
@@ -208,6 +213,10 @@ def run_case(case: dict) -> Result:
                     r = apply(op, cur, operand)
                 elif form == 'reflected':
                     r = apply(op, operand, cur)
+                elif step.get('stmt') and attached and OPS.holder_of(root, cur) is not None:
+                    # the statement `holder.attr op= operand` / `wrapper[i] op= operand`: read, in-place operator, store back
+                    classes.add('inplace-statement')
+                    r = OPS.inplace_statement(OPS.holder_of(root, cur), op + '=', operand)
                 else:
                     r = cur
                     if op == '+':
@@ -301,7 +310,7 @@ def _build(tier: str):
                 case['chain'].append({'form': form, 'op': g.pick(['pos', 'neg'])})
                 continue
             op = g.pick('+-*/')
-            vt = g.pick(['int', 'dec', 'expr', 'expr', 'attached'])
+            vt = g.pick(['int', 'dec', 'expr', 'expr', 'attached', 'self'] if g.p(0.3) else ['int', 'dec', 'expr', 'expr', 'attached'])
             if form == 'reflected':
                 vt = g.pick(['int', 'dec'])
             if vt == 'int':
@@ -315,9 +324,11 @@ def _build(tier: str):
                 o = {'vt': 'dec', 'v': str(d)}
             elif vt == 'expr':
                 o = {'vt': 'expr', 'v': L.text_of([g.number_expr(g.n(0, 3))])}
+            elif vt == 'self':
+                o = {'vt': 'self'}
             else:
                 o = {'vt': 'attached', 'mi': g.n(0, 20)}
-            case['chain'].append({'form': form, 'op': op, 'operand': o})
+            case['chain'].append({'form': form, 'op': op, 'operand': o, 'stmt': form == 'inplace' and g.p(0.5)})
         return case
     return build
 
